@@ -99,6 +99,7 @@ func TestC06_StoredSignaturesAlwaysValid(t *testing.T) {
 		var log []string
 		changedAfterSig, rekeyBetween := false, false
 		acrossChains := false
+		jailedOne, jailedConfirmer := false, false
 		sigCount := 0
 		itemHadSig := map[string]bool{}
 		lastBytes := map[string]string{}
@@ -152,10 +153,15 @@ func TestC06_StoredSignaturesAlwaysValid(t *testing.T) {
 					changedAfterSig = true
 				}
 				lastBytes[item] = string(b.BytesToSign)
-				confs, err := c.App.SkywayKeeper.GetBatchConfirmByNonceAndTokenContract(ctx, b.BatchNonce, b.TokenContract)
-				if err != nil {
-					t.Fatalf("confirms: %v", err)
-				}
+				// read straight from the store (every stored confirmation, whoever made it and whatever its validator's
+				// standing is now), not through the keeper's per-batch helper
+				var confs []skywaytypes.MsgConfirmBatch
+				c.App.SkywayKeeper.IterateBatchConfirms(ctx, func(_ []byte, cf skywaytypes.MsgConfirmBatch) bool {
+					if cf.Nonce == b.BatchNonce && strings.EqualFold(cf.TokenContract, b.TokenContract.GetAddress().Hex()) {
+						confs = append(confs, cf)
+					}
+					return false
+				})
 				seenVal, seenKey := map[string]bool{}, map[string]bool{}
 				for _, cf := range confs {
 					sig, err := hex.DecodeString(cf.Signature)
@@ -387,6 +393,27 @@ func TestC06_StoredSignaturesAlwaysValid(t *testing.T) {
 				log = append(log, fmt.Sprintf("estimateBatch(%d)=elected:%v", b.BatchNonce, elected))
 				checkAll(t)
 			},
+			// a validator drops out of the bonded set (fixture: jailed) while its signatures and confirmations are stored:
+			// elections that follow must still discard them with everybody else's
+			"jailOne": func(t *rapid.T) {
+				if jailedOne || n < 4 {
+					t.Skip("one validator per case, and two thirds must remain")
+				}
+				i := rapid.IntRange(0, n-1).Draw(t, "val")
+				if err := c.App.ValsetKeeper.Jail(c.Ctx(), c.Vals[i].Val(), "verif fixture"); err != nil {
+					t.Skip("not jailable")
+				}
+				jailedOne = true
+				block(t)
+				block(t)
+				for item, who := range signedWith {
+					if strings.HasPrefix(item, "batch-") && who[c.Vals[i].Addr.String()] != "" {
+						jailedConfirmer = true
+					}
+				}
+				log = append(log, fmt.Sprintf("jail(v%d)", i))
+				checkAll(t)
+			},
 			"reRegisterKey": func(t *rapid.T) {
 				i := rapid.IntRange(0, n-1).Draw(t, "val")
 				handOver := rapid.IntRange(0, 2).Draw(t, "takeOverFreedKey") == 0
@@ -434,6 +461,9 @@ func TestC06_StoredSignaturesAlwaysValid(t *testing.T) {
 		}
 		if acrossChains {
 			labels = append(labels, "oneRequestSignedForTwoChains")
+		}
+		if jailedConfirmer {
+			labels = append(labels, "confirmerLeftTheBondedSet")
 		}
 		evid.Case(t.Name(), strings.Join(log, " "), changedAfterSig || rekeyBetween, labels, func() any { return log })
 		freedKeys = nil
